@@ -576,7 +576,12 @@ fn check_model(
             json!({"case": input, "request": req, "model": field("out"), "impl": real_out}),
         );
     }
-    if d.order.is_ok() && field("valid") != "1" {
+    let cert = drv.ask(&format!(
+        "{} {}",
+        req.replacen("c14 fco", "c14 cert", 1),
+        if real_comps.is_empty() { "-" } else { &real_comps }
+    ));
+    if cert != "valid=1" {
         rep.violation(
             "the verified checker validOrder rejects the implementation's components: an item is missing, duplicated, or placed before something it references",
             "order:certificate",
